@@ -8,6 +8,8 @@ mod c09;
 mod c10;
 mod c11;
 mod c13;
+mod c14;
+mod c18;
 mod gens;
 mod proto;
 mod report;
@@ -31,6 +33,10 @@ fn rule_and_assumptions(prop: &str) -> (&'static str, Vec<&'static str>) {
         "C11" | "C12" => (c11::RULE, vec!["the harness clock and the library read the same realtime clock; margins 2 s (past) / 60 s (future); cases whose parse finished > 30 s after generation are discarded, never failed", "leap seconds (second 60) are not driven"]),
         "C13" => (c13::RULE_C13, vec!["payloads of local tokens are read back with the library's own decrypt (round-trip fidelity is C01's business)", "clock bracket: realtime clock read before and after the whole word is executed, 5 ms slack"]),
         "C17" => (c13::RULE_C17, vec!["payloads of local tokens are read back with the library's own decrypt (round-trip fidelity is C01's business)"]),
+        "C14" => (c14::RULE_C14, vec!["trusted base: serde_json equality and serde_json's own float formatting (value domain restricted to exact short decimals, no NaN/inf, non-empty keys, as the property states)"]),
+        "C15" => (c14::RULE_C15, vec!["integer-vs-float spellings of the same number are don't-care; when several expected claims fail any of them may be reported"]),
+        "C16" => (c14::RULE_C16, vec!["validators are harness functions; their call log is thread-local and drained around every parse"]),
+        "C18" => (c18::RULE, vec!["'must be refused' is demanded only for strings outside a broad superset of ISO 8601 date prefixes, so the oracle never demands more than the property"]),
         _ => ("", vec![]),
     }
 }
@@ -48,6 +54,10 @@ fn run(prop: &str, tier: &str, seed: u64, extra: &[String]) -> Report {
         "C10" => c10::run(tier, seed),
         "C11" | "C12" => c11::run(prop, tier, seed),
         "C13" | "C17" => c13::run(prop, tier, seed),
+        "C14" => c14::run_c14(tier, seed),
+        "C15" => c14::run_c15(tier, seed),
+        "C16" => c14::run_c16(tier, seed),
+        "C18" => c18::run(tier, seed),
         _ => {
             let mut r = Report::new();
             r.inconclusive.push(format!("no driver for property {}", prop));
@@ -70,6 +80,10 @@ fn replay(rec: &Value) -> (String, Report) {
         "C10" => c10::replay(&case),
         "C11" | "C12" => c11::replay(&cmd, &case),
         "C13" | "C17" => c13::replay(&cmd, &case),
+        "C14" => c14::replay_c14(&case),
+        "C15" => c14::replay_c15(&case),
+        "C16" => c14::replay_c16(rec, &case),
+        "C18" => c18::replay(&case),
         _ => {
             let mut r = Report::new();
             r.inconclusive.push(format!("replay record has no known cmd: {:?}", cmd));
